@@ -126,11 +126,9 @@ def stepSpec (s : SpecSt) (ts : List String) (_ : String) : SpecSt × Option Str
   if isTrace ts then (s, none) else
   match parse ts with
   | some op =>
-    let (s', o) := specStep s op
-    -- what the property claims: the same observation under the rules of the latest loads
-    let claimed := (specStep { s with rules := s.ideal } op).2
-    if o = claimed then (s', showOut o)
-    else (s', some ("?known:loadres-raw-slice-alias:" ++ (showOut claimed).getD ""))
+    let (s', _) := specStep s op
+    -- what the property claims: the observation under the rules of the latest loads (`ideal`; equal to `rules` by `enforced_is_latest_load`)
+    (s', showOut (specStep { s with rules := s.ideal } op).2)
   | none => (s, some "bad-op")
 
 def run (mode : String) : IO Unit :=
